@@ -29,6 +29,7 @@ func init() {
 		c19LeafAgreement(c)
 		c19Merkle(c)
 		c19OriginRule(c)
+		c19ValidatorDiscipline(c)
 		c19UnitComplete(c)
 		c19ValidateOrder(c)
 		// root-before-unpad
@@ -508,5 +509,36 @@ func c19OriginRule(c *Ctx) {
 	}
 	if n == 0 {
 		c.und("origin-rule", "ValidateShardOrigin", p.Pos(fnPos(f)), "no accepting return found")
+	}
+}
+
+// c19ValidatorDiscipline: (signature-cache) the validator remembers a signature as verified only after the public-key check
+// succeeded — caching first lets one forged unit poison the cache: later forged units are accepted without a key check and
+// honest ones rejected.
+// (Not decided: that every rejection reason of the validator is one an honest producer never triggers — e.g. an exact
+// proof-length formula that disagrees with merkle.New's padding for a one-shard committee; that is arithmetic over n.)
+func c19ValidatorDiscipline(c *Ctx) {
+	p := c.P
+	if f := p.Func("consensus/propeller", "UnitValidator", "verifySignature"); f != nil {
+		n := 0
+		allInstrs(f, func(in ssa.Instruction) {
+			st, ok := in.(*ssa.Store)
+			if !ok {
+				return
+			}
+			fa, ok := st.Addr.(*ssa.FieldAddr)
+			if !ok || fieldName(fa.X.Type(), fa.Field) != "verifiedSignature" {
+				return
+			}
+			n++
+			okv, miss := everyDisjunctHas(p.mustHoldAt(in), []string{"^!", "VerifyMessageSignature(", "!= nil)"})
+			vs := findSite(f, "VerifyMessageSignature")
+			c.check(okv && vs != nil && dominatesInstr(vs.Instr, in), "signature-cache", "verifySignature: verifiedSignature", p.Pos(posOf(in, f)), "cached only after VerifyMessageSignature returned nil", "the signature is cached as verified before (or without) a successful public-key verification: one unit with a forged signature poisons the cache, later forged units pass by comparison and honest units are rejected: "+miss)
+		})
+		if n == 0 {
+			c.und("signature-cache", "verifySignature", p.Pos(fnPos(f)), "store to verifiedSignature not found")
+		}
+	} else {
+		c.und("signature-cache", "UnitValidator.verifySignature", "", "anchor not found")
 	}
 }
